@@ -287,10 +287,13 @@ Definition option_code : list (string * list dstmt) := [
    [DAssign "t" "o.(*transport.System)"; DAssign "ok" "ok of o.(*transport.System)"; DIf (DNot (DAtom "ok")) [DReturn "util.ErrIgnoredOption"] []; DAssign "t.ExtraArgs" "append(t.ExtraArgs, l...)"; DReturn "nil"]);
   ("WithSystemTransportOpenArgsOverride",
    [DAssign "t" "o.(*transport.System)"; DAssign "ok" "ok of o.(*transport.System)"; DIf (DNot (DAtom "ok")) [DReturn "util.ErrIgnoredOption"] []; DAssign "t.OpenArgs" "l"; DReturn "nil"])].
+(* driver/network/acquirepriv.go Driver.determineCurrentPriv *)
+Definition determine_current_priv_code : list dstmt :=
+  [DRange "priv" "d.PrivilegeLevels" [DIf (DAtom "util.StringContainsAny(currentPrompt, priv.NotContains)") [DContinue] []; DIf (DAtom "priv.patternRe.MatchString(currentPrompt)") [DAssign "possiblePrivs" "append(possiblePrivs, priv.Name)"] []]; DIf (DEq "len(possiblePrivs)" "0") [DReturn "nil, fmt.Errorf( ""%w: could not determine privilege level from prompt '%s'"", util.ErrPrivilegeError, currentPrompt, )"] []; DReturn "possiblePrivs, nil"].
 (* the option loops of the constructors (C19) *)
 Definition option_loops : list (string * dstmt) := [
   ("driver/generic/driver.go NewDriver",
-   DRange "option" "opts" [DAssign "err" "option(d)"; DIf (DAtom "errors.Is(err, util.ErrIgnoredOption)") [DAssign "err" "nil"] []]);
+   DRange "option" "opts" [DAssign "err" "option(d)"; DIf (DNot (DEq "err" "nil")) [DIf (DNot (DAtom "errors.Is(err, util.ErrIgnoredOption)")) [DReturn "nil, err"] []] []]);
   ("driver/network/driver.go NewDriver",
    DRange "option" "opts" [DAssign "err" "option(d)"; DIf (DNot (DEq "err" "nil")) [DIf (DNot (DAtom "errors.Is(err, util.ErrIgnoredOption)")) [DReturn "nil, err"] []] []]);
   ("driver/netconf/driver.go NewDriver",
